@@ -41,13 +41,18 @@ func newTimedQueue(ttl time.Duration, onPop func(peer.ID)) *timedQueue {
 // releaseExpired will release all expired items
 func (q *timedQueue) releaseExpired() {
 	q.Lock()
-	defer q.Unlock()
-	q.releaseUnsafe()
+	expired := q.releaseUnsafe()
+	q.Unlock()
+	// onPop takes the lock of the queue's owner, which in turn pushes to the queue while holding it:
+	// it must not be called with the queue lock held
+	for _, it := range expired {
+		q.onPop(it.ID)
+	}
 }
 
-func (q *timedQueue) releaseUnsafe() {
+func (q *timedQueue) releaseUnsafe() (expired []item) {
 	if len(q.items) == 0 {
-		return
+		return nil
 	}
 
 	var i int
@@ -61,8 +66,7 @@ func (q *timedQueue) releaseUnsafe() {
 		}
 
 		// item is expired
-		verifhook.PointKV("peers.lock:queue-held-want-pool", q)
-		q.onPop(next.ID)
+		expired = append(expired, next)
 		i++
 	}
 
@@ -70,6 +74,7 @@ func (q *timedQueue) releaseUnsafe() {
 		copy(q.items, q.items[i:])
 		q.items = q.items[:len(q.items)-i]
 	}
+	return expired
 }
 
 func (q *timedQueue) push(peerID peer.ID) {
